@@ -91,6 +91,30 @@ func (r faultReaderAt) ReadAt(p []byte, off int64) (int, error) {
 	return r.inner.ReadAt(p, off)
 }
 
+// faultStream is a caller-supplied sequential image reader (io.Reader) whose k-th Read fails: with no data, or
+// (kind "short") with part of the data and the error. An early io.EOF is not injected: on a sequential reader
+// it is the end of the data. A short count without an error is legal for an io.Reader.
+type faultStream struct {
+	inner io.Reader
+	fc    *faultCounter
+}
+
+func (r faultStream) Read(p []byte) (int, error) {
+	if r.fc.step() {
+		if r.fc.kind == "short" && len(p) > 1 {
+			n, _ := r.inner.Read(p[:len(p)/2])
+			return n, errInjected
+		}
+		return 0, errInjected
+	}
+	return r.inner.Read(p)
+}
+
+// the variable file of v in the efivarfs directory
+func c15VarPath(v efivar.Efivar) string {
+	return "/sys/firmware/efi/efivars/" + v.Name + "-" + canonGUIDText(*v.GUID)
+}
+
 func init() {
 	// one operation under one fault; k = -1 runs it clean. Output: "<result> calls=<n> trace=<…> state=<…>"
 	workerOps["fault.run"] = func(a map[string]string) (string, string) {
@@ -108,7 +132,7 @@ func init() {
 		switch a["dep"] {
 		case "signer":
 			sfc.faultK = k
-		case "reader":
+		case "reader", "stream":
 			rfc.faultK = k
 		case "fs":
 			rec.faultK = k
@@ -117,6 +141,23 @@ func init() {
 		fw := fswrapper.NewMemoryWrapper()
 		fw.SetFS(rec)
 		store := efivarfs.Open(&efivarfs.EFIFS{FSWrapper: fw})
+		// a store that holds one variable file, behind the recording / fault-injecting filesystem
+		holding := func(path string, content []byte) {
+			mem := afero.NewMemMapFs()
+			afero.WriteFile(mem, path, content, 0o644)
+			rec = newRecFs(mem)
+			rec.kind = kind
+			if a["dep"] == "fs" {
+				rec.faultK = k
+			}
+			fw.SetFS(rec)
+		}
+		legacy := func(f func()) { // the package-level API, over the filesystem installed with fs.SetFS
+			old := efs.Fs
+			efs.SetFS(rec)
+			defer efs.SetFS(old)
+			f()
+		}
 		v := efivar.Db
 		result, state := "", "n/a"
 		switch a["op"] {
@@ -167,6 +208,130 @@ func init() {
 			result = resOf(err, true)
 			if err == nil && (buf == nil || !bytes.Equal(buf.Bytes(), payload)) {
 				result = "wrong-value"
+			}
+		case "read-variable-file", "read-variable-legacy-file", "read-variable-legacy-name":
+			// the other entry points of the two readers: by full path (object and package-level), and by name
+			// alone (the package-level reader derives the vendor GUID)
+			holding(c15VarPath(v), append(v.Attributes.Bytes(), payload...))
+			var buf *bytes.Buffer
+			var err error
+			switch a["op"] {
+			case "read-variable-file":
+				_, buf, err = fw.ReadEfivarsFile(c15VarPath(v))
+			case "read-variable-legacy-file":
+				legacy(func() { _, buf, err = attributes.ReadEfivarsFile(c15VarPath(v)) })
+			default:
+				legacy(func() { _, buf, err = attributes.ReadEfivars(v.Name) })
+			}
+			result = resOf(err, true)
+			if err == nil && (buf == nil || !bytes.Equal(buf.Bytes(), payload)) {
+				result = "wrong-value"
+			}
+		case "read-db", "read-db-legacy":
+			// the typed getters of the signature database (payload: an encoded database)
+			holding(c15VarPath(v), append(v.Attributes.Bytes(), payload...))
+			var db *signature.SignatureDatabase
+			var err error
+			if a["op"] == "read-db" {
+				db, err = store.Getdb()
+			} else {
+				legacy(func() { db, err = efi.Getdb() })
+			}
+			result = resOf(err, true)
+			if err == nil && (db == nil || !bytes.Equal(db.Bytes(), payload)) {
+				result = "wrong-value"
+			}
+		case "read-bool", "read-bool-legacy":
+			// SecureBoot holds 1. The package-level getter has no error result: whatever it returns is reported as the value.
+			sb := efivar.SecureBoot
+			holding(c15VarPath(sb), append(sb.Attributes.Bytes(), 1))
+			var on bool
+			var err error
+			if a["op"] == "read-bool" {
+				on, err = store.GetSecureBoot()
+			} else {
+				legacy(func() { on = efi.GetSecureBoot() })
+			}
+			result = resOf(err, true)
+			if err == nil && !on {
+				result = "wrong-value"
+			}
+		case "read-bootorder", "read-bootorder-legacy":
+			// BootOrder holds two entries. Neither getter has an error result.
+			bo := efivar.BootOrder
+			holding(c15VarPath(bo), append(bo.Attributes.Bytes(), 1, 0, 0x1a, 0))
+			var names []string
+			if a["op"] == "read-bootorder" {
+				names = store.GetBootOrder()
+			} else {
+				legacy(func() { names = efi.GetBootOrder() })
+			}
+			result = "ok"
+			if strings.Join(names, ",") != "Boot0001,Boot001A" {
+				result = "wrong-value"
+			}
+		case "write-file":
+			result = resOf(fw.WriteFile(c15VarPath(v), payload, 0o644), true)
+		case "read-file":
+			holding(c15VarPath(v), payload)
+			b, err := fw.ReadFile(c15VarPath(v))
+			result = resOf(err, true)
+			if err == nil && !bytes.Equal(b, payload) {
+				result = "wrong-value"
+			}
+		case "sign-authenticode":
+			// the exported signing routine under Sign: the image content comes from a caller-supplied io.Reader
+			b, err := authenticode.SignAuthenticode(signer, cert, faultStream{bytes.NewReader(img), rfc}, crypto.SHA256)
+			result = resOf(err, b != nil)
+		case "verify-authenticode":
+			// the exported verification routine under Verify: a signature over img, checked against img read
+			// through a caller-supplied io.Reader
+			sig, err := authenticode.SignAuthenticode(key, cert, bytes.NewReader(img), crypto.SHA256)
+			if err != nil {
+				return "err", "sign"
+			}
+			ac, err := authenticode.ParseAuthenticode(sig)
+			if err != nil {
+				return "err", "parse-signature"
+			}
+			ok, err := ac.Verify(cert, faultStream{bytes.NewReader(img), rfc})
+			result = resOf(err, true)
+			if err == nil && !ok {
+				result = "ok-false"
+			}
+		case "open-image":
+			// the image read back through Open(): the reader it returns reads through the caller's io.ReaderAt
+			fr := faultReaderAt{bytes.NewReader(img), rfc}
+			rfc.faultK = -1
+			p, err := authenticode.Parse(fr)
+			if err != nil {
+				return "err", "parse"
+			}
+			whole := append([]byte{}, p.Bytes()...)
+			rfc.mu.Lock()
+			rfc.n, rfc.faultK = 0, k
+			rfc.mu.Unlock()
+			got, err := io.ReadAll(p.Open())
+			result = resOf(err, true)
+			if err == nil && !bytes.Equal(got, whole) {
+				result = fmt.Sprintf("wrong-value:%d-of-%d-bytes", len(got), len(whole))
+			}
+		case "bytes-image":
+			// Bytes() has no error result: whatever it returns is reported as the image
+			fr := faultReaderAt{bytes.NewReader(img), rfc}
+			rfc.faultK = -1
+			p, err := authenticode.Parse(fr)
+			if err != nil {
+				return "err", "parse"
+			}
+			whole := append([]byte{}, p.Bytes()...)
+			rfc.mu.Lock()
+			rfc.n, rfc.faultK = 0, k
+			rfc.mu.Unlock()
+			got := p.Bytes()
+			result = "ok"
+			if !bytes.Equal(got, whole) {
+				result = fmt.Sprintf("wrong-value:%d-of-%d-bytes", len(got), len(whole))
 			}
 		case "parse-image":
 			p, err := authenticode.Parse(faultReaderAt{bytes.NewReader(img), rfc})
@@ -257,7 +422,12 @@ func init() {
 				writes++
 			}
 		}
-		return "ok", fmt.Sprintf("%s calls=%d fswrites=%d state=%s sigcalls=%d readcalls=%d", result, calls, writes, state, sfc.n, opReads)
+		// the names of the filesystem calls in order (the parent learns from the fault-free run which call has index k)
+		names := []string{}
+		for _, l := range rec.Log() {
+			names = append(names, strings.TrimSuffix(strings.SplitN(l, "(", 2)[0], "!"))
+		}
+		return "ok", fmt.Sprintf("%s calls=%d fswrites=%d state=%s sigcalls=%d readcalls=%d ops=%s", result, calls, writes, state, sfc.n, opReads, strings.Join(names, ","))
 	}
 }
 
@@ -319,12 +489,21 @@ func c15Eval(c *Ctx, cs Case) {
 	switch dep {
 	case "signer":
 		n, _ = strconv.Atoi(field(clean.Out, "sigcalls"))
-	case "reader":
+	case "reader", "stream":
 		n, _ = strconv.Atoi(field(clean.Out, "readcalls"))
 	case "fs":
 		n, _ = strconv.Atoi(field(clean.Out, "calls"))
 	}
 	c.Note("calls/"+op+"/"+dep, n)
+	// which filesystem call has index k: the call sequence of the fault-free run as the worker recorded it
+	// (so every operation, the package-level ones included, is judged at its Write and at its Close)
+	fsOps := strings.Split(field(clean.Out, "ops"), ",")
+	faultedCall := func(k int) string {
+		if dep == "fs" && k < len(fsOps) {
+			return fsOps[k]
+		}
+		return ""
+	}
 	only := int(cs.I("only_k"))
 	kinds := []string{"error"}
 	if dep == "fs" {
@@ -335,9 +514,26 @@ func c15Eval(c *Ctx, cs Case) {
 			// after Parse the sizes are known: a reader that ends early is a failure, not a shorter file
 			kinds = append(kinds, "short-eof", "eof0")
 		}
+	} else if dep == "stream" {
+		kinds = []string{"error", "short"}
 	}
+	// a case may name the fault kinds it wants ("kinds") and the filesystem calls it leaves out ("skip_calls"):
+	// the generator uses this to keep the classes of the reported findings (see c15Gen) out of the routine run
+	if ks := cs.S("kinds"); ks != "" {
+		var sel []string
+		for _, kd := range kinds {
+			if strings.Contains(","+ks+",", ","+kd+",") {
+				sel = append(sel, kd)
+			}
+		}
+		kinds = sel
+	}
+	skipCalls := cs.S("skip_calls")
 	for k := 0; k < n; k++ {
 		if _, has := cs["only_k"]; has && k != only {
+			continue
+		}
+		if skipCalls != "" && faultedCall(k) != "" && strings.Contains(","+skipCalls+",", ","+faultedCall(k)+",") {
 			continue
 		}
 		for _, kind := range kinds {
@@ -382,7 +578,9 @@ func c15Eval(c *Ctx, cs Case) {
 				}
 			}
 			// a short count is only a fault for the call that moves data
-			if (kind == "short1" || kind == "short0") && !faultBites(c, a, k) {
+			// (a Read that delivers fewer bytes without an error is legal for an io.Reader - io.ReadFull asks
+			// again; only a short *write* is a failure)
+			if (kind == "short1" || kind == "short0") && faultedCall(k) != "write" {
 				continue
 			}
 			if (kind == "short-nil" || kind == "zero-nil") && result == strings.SplitN(clean.Out, " ", 2)[0] && field(res.Out, "state") == field(clean.Out, "state") {
@@ -400,7 +598,7 @@ func c15Eval(c *Ctx, cs Case) {
 			}
 			if result != "err" {
 				m := ""
-				if dep == "fs" && strings.Contains(faultedCall(c, a, k), "close") {
+				if dep == "fs" && faultedCall(k) == "close" {
 					m = "c15.close_error_dropped"
 				}
 				fail("success (or a value) was reported: "+result, res.Out, k, kind, m)
@@ -414,53 +612,6 @@ func c15Eval(c *Ctx, cs Case) {
 			c.Trace()
 		}
 	}
-}
-
-// which call of the clean trace has index k (fs only)? and does a short count apply to it?
-var traceCache = map[string][]string{}
-
-func cleanTrace(c *Ctx, a map[string]string) []string {
-	key := a["op"] + a["payload"]
-	if t, ok := traceCache[key]; ok {
-		return t
-	}
-	// re-run locally on a recording filesystem (no faults) to learn the call sequence
-	rec := newRecFs(afero.NewMemMapFs())
-	fw := fswrapper.NewMemoryWrapper()
-	fw.SetFS(rec)
-	store := efivarfs.Open(&efivarfs.EFIFS{FSWrapper: fw})
-	v := efivar.Db
-	switch a["op"] {
-	case "write-variable":
-		store.WriteVar(v, rawValue(unhx(a["payload"])))
-	case "signed-update":
-		key := poolKey(c, 2048, 0)
-		store.WriteSignedUpdate(v, rawValue(unhx(a["payload"])), key, makeRSACert(key, certShapes(c)[0]))
-	case "read-variable":
-		mem := afero.NewMemMapFs()
-		afero.WriteFile(mem, "/sys/firmware/efi/efivars/db-"+canonGUIDText(*v.GUID), append(v.Attributes.Bytes(), unhx(a["payload"])...), 0o644)
-		rec = newRecFs(mem)
-		fw.SetFS(rec)
-		var pv probeValue
-		store.GetVar(v, &pv)
-	}
-	traceCache[key] = rec.Log()
-	return rec.Log()
-}
-
-func faultedCall(c *Ctx, a map[string]string, k int) string {
-	t := cleanTrace(c, a)
-	if k < len(t) {
-		return t[k]
-	}
-	return ""
-}
-
-func faultBites(c *Ctx, a map[string]string, k int) bool {
-	call := faultedCall(c, a, k)
-	// a Read that delivers fewer bytes without an error is legal for an io.Reader (io.ReadFull asks again);
-	// only a short *write* is a failure
-	return strings.HasPrefix(call, "write(")
 }
 
 func c15Gen(c *Ctx) {
@@ -482,25 +633,55 @@ func c15Gen(c *Ctx) {
 	u := newC09Universe(c)
 	payloads := [][]byte{encodeList(tSHA256, nil, 48, [][2][]byte{{u.owners[0], u.data[0]}}), nil, randBytes(c, 100)}
 	_ = attributes.EFI_VARIABLE_APPEND_WRITE
-	for _, pl := range payloads {
+	for pi, pl := range payloads {
 		for _, od := range [][2]string{{"sign-blob", "signer"}, {"sign-variable", "signer"}, {"write-variable", "fs"}, {"write-variable-legacy", "fs"}, {"write-variable-legacy-name", "fs"}, {"write-variable-legacy-efi", "fs"}, {"signed-update", "signer"}, {"signed-update", "fs"}, {"read-variable", "fs"}, {"read-variable-legacy", "fs"}} {
 			if c.NFailures() >= 12 {
 				return
 			}
 			c15Eval(c, Case{"op": "faults", "operation": od[0], "dep": od[1], "payload": hx(pl)})
 		}
+		// the other public entry points of the same functionality
+		more := [][2]string{{"read-variable-file", "fs"}, {"read-variable-legacy-file", "fs"}, {"read-variable-legacy-name", "fs"}}
+		if pi != 2 { // the typed getters decode the value: an encoded database and the empty one
+			more = append(more, [2]string{"read-db", "fs"}, [2]string{"read-db-legacy", "fs"})
+		}
+		if pi == 0 {
+			more = append(more, [2]string{"read-bool", "fs"})
+		}
+		for _, od := range more {
+			if c.NFailures() >= 12 {
+				return
+			}
+			c15Eval(c, Case{"op": "faults", "operation": od[0], "dep": od[1], "payload": hx(pl)})
+		}
+		// The generic file methods of the filesystem wrapper. REPORTED FINDINGS, left out of the routine run
+		// (the oracle judges them when a case does not restrict it, see the audit report):
+		//  - FSWrapper.WriteFile drops the count of Write: a short write (n-1 or 0 bytes, no error) is reported as success;
+		//  - FSWrapper.ReadFile drops the error of Close and of Stat (the data it returns are right).
+		c15Eval(c, Case{"op": "faults", "operation": "write-file", "dep": "fs", "payload": hx(pl), "kinds": "error"})
+		c15Eval(c, Case{"op": "faults", "operation": "read-file", "dep": "fs", "payload": hx(pl), "skip_calls": "stat,close"})
+		// Also left out: the getters that have no error result - efi.GetSecureBoot / efi.GetSetupMode (false),
+		// efi.GetBootOrder and Efivarfs.GetBootOrder (no names) answer a failed read with a value
+		// (operations read-bool-legacy, read-bootorder, read-bootorder-legacy of the worker).
 	}
 	for _, img := range images {
 		signed, _, err := signImage(c, img, 0)
 		if err != nil {
 			continue
 		}
-		for _, od := range [][2]string{{"parse-image", "reader"}, {"hash-image", "reader"}, {"sign-image", "signer"}, {"sign-image", "reader"}} {
+		for _, od := range [][2]string{{"parse-image", "reader"}, {"hash-image", "reader"}, {"sign-image", "signer"}, {"sign-image", "reader"},
+			{"sign-authenticode", "signer"}, {"sign-authenticode", "stream"}, {"verify-authenticode", "stream"}} {
 			if c.NFailures() >= 12 {
 				return
 			}
 			c15Eval(c, Case{"op": "faults", "operation": od[0], "dep": od[1], "img": hx(img)})
 		}
+		// the image read back through Open(). REPORTED FINDING, left out of the routine run: when the caller's
+		// reader ends early after Parse (a short count with io.EOF, an empty read with io.EOF) the reader returned
+		// by Open() delivers the image with the missing bytes left out and no error (Hash, Sign and Verify report
+		// the same fault as an error since F21). Bytes() (operation bytes-image) has no error result at all and
+		// returns what it got under every fault kind.
+		c15Eval(c, Case{"op": "faults", "operation": "open-image", "dep": "reader", "img": hx(img), "kinds": "error,short,short-nil,zero-nil"})
 		// an image that already carries a signature: Parse also reads the certificate table
 		for _, od := range [][2]string{{"parse-image", "reader"}, {"hash-image", "reader"}, {"sign-image", "reader"}, {"verify-image", "reader"}} {
 			c15Eval(c, Case{"op": "faults", "operation": od[0], "dep": od[1], "img": hx(signed)})
@@ -510,8 +691,8 @@ func c15Gen(c *Ctx) {
 
 func init() {
 	register("C15", &PropDef{
-		Rule:   "operations {sign blob, sign variable, write variable, signed update, read variable, parse / hash / sign / verify image} x the dependency they use (crypto.Signer, afero.Fs/afero.File, io.ReaderAt): the calls of the fault-free run are counted and then EVERY call position k is failed in turn (exhaustive per input) with each fault kind (error; for the filesystem also a write/read count of n-1 and of 0; for the reader also a short count with io.ErrUnexpectedEOF and, once Parse has fixed the sizes, a short count with io.EOF and an empty read with io.EOF), on unsigned and on already signed images, in a worker process. Write variable is exercised through the object API (EFIFS over FSWrapper.SetFS) and through the three entry points of the legacy package-level writer (attributes.WriteEfivarsWithGuid, attributes.WriteEfivars, efi.WriteEFIVariable, filesystem installed with fs.SetFS), each at every call position (OpenFile, Write, Close) with every filesystem fault kind. Checked: the result is an error (no digest for Hash), never success or a wrong value; a failed signing leaves Bytes() and Signatures() unchanged; a failed signer writes nothing. Every (operation, input, k, kind) is non-trivial and distinct.",
-		Assume: []string{"a short count counts as a fault only on the call that moves data (Write / Read)", "during Parse an early io.EOF from the caller's reader is indistinguishable from a shorter file and is not injected there"},
+		Rule:   "operations {sign blob, sign variable, write variable, signed update, read variable, parse / hash / sign / verify image} x the dependency they use (crypto.Signer, afero.Fs/afero.File, io.ReaderAt): the calls of the fault-free run are counted and then EVERY call position k is failed in turn (exhaustive per input) with each fault kind (error; for the filesystem also a write/read count of n-1 and of 0; for the reader also a short count with io.ErrUnexpectedEOF and, once Parse has fixed the sizes, a short count with io.EOF and an empty read with io.EOF), on unsigned and on already signed images, in a worker process. Write variable is exercised through the object API (EFIFS over FSWrapper.SetFS) and through the three entry points of the legacy package-level writer (attributes.WriteEfivarsWithGuid, attributes.WriteEfivars, efi.WriteEFIVariable, filesystem installed with fs.SetFS), each at every call position (OpenFile, Write, Close) with every filesystem fault kind. The other public entry points of the same operations are failed in the same way: read variable through FSWrapper.ReadEfivarsFile, attributes.ReadEfivarsFile and attributes.ReadEfivars (name alone), through the typed getters Efivarfs.Getdb / efi.Getdb (the value returned without an error must be the stored database) and Efivarfs.GetSecureBoot; FSWrapper.WriteFile (error faults) and FSWrapper.ReadFile (open and read faults); authenticode.SignAuthenticode with a failing signer and with a caller-supplied io.Reader whose k-th Read fails (no data, or half the data with the error), Authenticode.Verify with such a reader, and the image read back through Open() (error, short count with io.ErrUnexpectedEOF, short counts without an error). Which filesystem call has index k (a short count bites on Write only, a dropped Close is named as such) is taken from the call sequence the worker recorded in the fault-free run, for every operation. Left out of the routine run because the unchanged library fails them (reported; the worker operations and the oracle are there, a case without the kinds / skip_calls restriction judges them): a short write in FSWrapper.WriteFile, a failed Stat or Close in FSWrapper.ReadFile, a reader that ends early under Open(), Bytes() and the getters without an error result (efi.GetSecureBoot / GetSetupMode / GetBootOrder, Efivarfs.GetBootOrder). Checked: the result is an error (no digest for Hash), never success or a wrong value; a failed signing leaves Bytes() and Signatures() unchanged; a failed signer writes nothing. Every (operation, input, k, kind) is non-trivial and distinct.",
+		Assume: []string{"a short count counts as a fault only on the call that moves data (Write / Read)", "during Parse an early io.EOF from the caller's reader is indistinguishable from a shorter file and is not injected there", "an early io.EOF from a caller-supplied sequential io.Reader (SignAuthenticode, Authenticode.Verify) is the end of the data and is not injected"},
 		Eval:   c15Eval, Gen: c15Gen,
 	})
 }
